@@ -184,6 +184,25 @@ fn far(ch: &mut Choices, case: &mut Case) -> Result<(), String> {
     Ok(())
 }
 
+/// Rare recurrences: exact comparison with a forward scan of 48 years.
+fn rare(ch: &mut Choices, case: &mut Case) -> Result<(), String> {
+    let text = crate::gen::expr::gen_rare_expr(ch);
+    let year = ch.pick(&[2089, 2094, 2096, 2099, 2189, 2395, 1895, 1899, 9889, 9960, 2019, 2000]) + ch.int(0, 6) as i32;
+    let holidays = crate::gen::ctx::gen_holidays(ch, year.clamp(1901, 9980) + 2);
+    let oh = OpeningHours::parse(&text)
+        .map_err(|e| format!("constructed sentence `{text}` rejected: {e}"))?
+        .with_context(opening_hours::Context::default().with_holidays(holidays.holidays.clone()));
+    let mut nontrivial = false;
+    for _ in 0..2 {
+        let t = chrono::NaiveDate::from_ymd_opt(year, 1 + ch.draw(12), 1 + ch.draw(28)).unwrap().and_time(crate::props::c02::gen_time(ch));
+        case.key = format!("{text}  t={t}  {}", crate::gen::ctx::describe(&holidays));
+        case.units += 1;
+        nontrivial |= check_instant(&oh, &text, t, 17_600, Some(400_000), ch, case)?;
+    }
+    case.nontrivial = nontrivial;
+    Ok(())
+}
+
 fn instants_text(text: &str, case: &mut Case) -> Result<(), String> {
     case.key = text.to_string();
     let (expr, t) = text.rsplit_once(" @ ").ok_or("bad replay text")?;
@@ -207,6 +226,15 @@ pub fn property() -> Property {
                 cases_quick: 12_000,
                 cases_thorough: 400_000,
                 max_choices: 380,
+            },
+            SubCheck {
+                name: "rare",
+                rule: "constructed rare-recurrence expressions (leap days, week 53, dates on a weekday, year steps, Easter in a given week, offsets crossing the year end, sparse shifted PH) x 2 instants in years around 2096-2105, 2196, 2400, 1900, 9890-9999, 2000-2025: state and next_change against a forward scan of 17 600 days (48 years), work cap 400 000 day schedules; non-trivial as for `instants`",
+                f: rare,
+                text_f: Some(instants_text),
+                cases_quick: 6_000,
+                cases_thorough: 60_000,
+                max_choices: 60,
             },
             SubCheck {
                 name: "far",
